@@ -60,10 +60,14 @@ class Viols:
         self.first = {}
         self.count = {}
 
-    def add(self, key, what, replay):
+    def add(self, key, what, replay, sev=0.0):
+        """Keeps, per key, the first violation — or the one with the largest severity `sev` when given."""
         self.count[key] = self.count.get(key, 0) + 1
-        if key not in self.first:
-            self.first[key] = Violation(PROP, key, what, replay)
+        cur = self.first.get(key)
+        if cur is None or sev > cur.sev:
+            v = Violation(PROP, key, what, replay)
+            v.sev = float(sev)
+            self.first[key] = v
 
     def list(self):
         out = []
